@@ -18,33 +18,6 @@ def g_no_alias_deps(h):
     return all(all(s["nodes"][d]["k"] == "t" for d in n["deps"]) for s in snaps_of(h) for n in s["nodes"] if n["k"] == "t")
 
 
-def own_state(snap, n):
-    """(own state of a target, the two byte streams its own part contributes to the key)"""
-    ins = sorted(bl.resolved_inputs(snap, n), key=lambda x: x.encode())
-    outs = tuple(sorted("%s::%s" % (k, p) for k, p in n["outs"]))
-    fp = tuple(sorted("%s=%s" % kv for kv in n.get("fp", {}).items()))
-    contents = tuple((p, snap["files"].get(bl.full(n["pkg"], p))) for p in ins)
-    state = (bl.label(n), bl.command_text(snap, n), tuple(ins), outs, fp, bool(n.get("multi")), contents)
-    streams = (bl.label(n), bl.command_text(snap, n), ",".join(ins), ",".join(outs), ",".join(fp), bool(n.get("multi")),
-               "".join(c or "" for _, c in contents))
-    return state, streams
-
-
-def g_key_injective(h):
-    """key_guard: no two different own-states of a target in this history feed the hasher the same bytes
-    (own part: command, inputs, contents, outputs, fingerprint; dependency hashes are covered inductively)."""
-    seen = {}
-    for s in snaps_of(h):
-        for n in s["nodes"]:
-            if n["k"] != "t":
-                continue
-            state, streams = own_state(s, n)
-            if streams in seen and seen[streams] != state:
-                return False
-            seen[streams] = state
-    return True
-
-
 def g_no_nocache_multiout_dep(h):
     for s in snaps_of(h):
         for n in s["nodes"]:
@@ -160,7 +133,9 @@ def witness_alias_change():
 
 
 def witness_file_boundary():
-    """C01/C09: bytes move from the end of one input file to the start of the next."""
+    """C01/C09: bytes move from the end of one input file to the start of the next.  The framed key encoding tells the two
+    states apart: the target must be rebuilt and the incremental build must equal the from-scratch build (regression
+    history of the former finding C01-F2)."""
     def plan(h, r):
         mk = lambda a, b: {"nodes": [
             {"k": "t", "pkg": "p", "name": "t", "salt": "v0", "ins": ["a.txt", "b.txt"], "glob": None, "excl": [], "outs": [("file", "t.out")],
